@@ -1424,6 +1424,10 @@ def gen_motor(g):
         u = r.choice(['mA', 'uA', 'A'])
         mot['i0'] = [float(f'{i0 / si.factor("Current", u):.3g}'), u]
         mot['imax'] = [float(f'{imax / si.factor("Current", u):.3g}'), u]
+    if mot['i0'] is not None and g.chance(0.08):
+        # only one of the two optional currents given: legal, the current is
+        # not computable and the torque follows the law without current data
+        mot[r.choice(['i0', 'imax'])] = None
     model = model_of(scn['elements'], scn['decls'])
     msi = model.e[0]
     k, R, E, J = rm.rate_constant(model, chain)
@@ -1527,7 +1531,8 @@ def gen_decl(g):
     for _ in range(r.choice([0, 1, 2, 2])):
         a = r.choice(alphas) if g.chance(0.8) else alphas[0]
         hmax = rm.WORM_TABLE[a][0]
-        beta = g.q('Angle', r.uniform(2.0, hmax * 0.98) * pi / 180)
+        beta = g.q('Angle', (r.uniform(2.0, hmax * 0.98) if g.chance(0.75)
+                             else r.uniform(hmax * 0.9, hmax * 0.98)) * pi / 180)
         add({'kind': 'WormGear', 'starts': r.choice([1, 2, 3, 4]),
              'J': g.inertia(), 'beta': list(beta), 'alpha': [a, 'deg'],
              'd': None})
@@ -1662,8 +1667,13 @@ def gen_decl(g):
                      if els[a]['alpha'] == els[b]['alpha']]
                 r.shuffle(c)
                 for a, b in c:
-                    for mm, ss in ((b, a), (a, b)):
-                        for f in (0.99, 0.9, 0.7, 0.5, 0.3):
+                    # either orientation: with a steep helix (30 deg
+                    # pressure angle, helix above ~41 deg) the worm-drives
+                    # formula goes negative too
+                    orients = [(b, a), (a, b)]
+                    r.shuffle(orients)
+                    for mm, ss in orients:
+                        for f in (1.0, 0.99, 0.9, 0.7, 0.5, 0.3):
                             dd = {'op': 'worm', 'm': mm, 's': ss, 'f': f}
                             eta = model.worm_efficiency(dd)
                             if eta is not None and (eta < -0.01 or eta > 1.01):
